@@ -11,7 +11,7 @@ RULE = ("random PEP 508 formula trees (or-lists of and-lists of atoms / parenthe
         "PEP 508 character pools incl. the other quote) rendered with random whitespace, quote style, dotted names and redundant "
         "parentheses, each evaluated under environments that spell out all 12 keys (values from the same pools, biased towards the "
         "compared literals; extra=None; python_full_version ending in '+'); an operator x operand x operand sweep over single atoms; "
-        "partial mappings on top of the host's default_environment(); mutated texts; right operands starting with '=' (the operator read back "
+        "partial mappings on top of the host's default_environment(); mutated texts; flat formulas of 4..40 atoms; right operands starting with '=' (the operator read back "
         "from op+rhs is not the one written); markers nested 50..300 parentheses deep (redundant, right-, left-nested, zig-zag) with the value "
         "the formula must have; non-ASCII word characters placed next to keywords and variable names; environments with repeated keys, keys "
         "that name no variable, values with backslash / newline / NUL; a DETECTED python_full_version ending in '+' (platform.python_version "
@@ -152,6 +152,16 @@ def streams(rng, tier):
                 s = s.replace(nm, 'os_name %s "xyz"' % ("in" if bits >> i & 1 else "not in"))
             env = G.rand_env(rng); env["os_name"] = "y"
             out.append(Case("precedence", "k.eval", [s, "M"] + G.env_args(env)))
+    # 5b. long or-lists / and-lists (4..40 atoms on one level), and the environment laws on deeper formulas
+    for _ in range(250 if q else 6000):
+        f = G.long_expr(rng, rng.randrange(4, 41))
+        s = G.render(rng, f)
+        out.append(Case("long-lists", "k.eval", [s, "M"] + G.env_args(G.env_for(rng, f))))
+        if rng.random() < 0.3: out.append(Case("law-env", "law.k.env", [s, json.dumps(G.env_for(rng, f, total=False))], kind="law"))
+    for _ in range(200 if q else 5000):
+        f = G.rand_expr(rng, rng.randrange(3, maxd + 1))
+        out.append(Case("law-env", "law.k.env", [G.render(rng, f), json.dumps(G.env_for(rng, f, total=False))], kind="law"))
+
     # 6. deep nesting, far beyond the generic generator's depth 9 (the model is total; the implementation recurses)
     depths = [50, 100, 150, 200, 250, 300] + [rng.randrange(50, 301) for _ in range(4 if q else 40)]
     env = G.rand_env(rng); env["os_name"] = "b"
